@@ -53,8 +53,8 @@ func runC13(t *testing.T, rc *core.RunCtx) {
 	if how == "from-handler" && !cfg.handlers {
 		how = "dispose"
 	}
-	at := tp.Draw(8)        // nemesis step
-	hAt := tp.Draw(12)      // handler call index for from-handler
+	at := tp.Draw(8)   // nemesis step
+	hAt := tp.Draw(12) // handler call index for from-handler
 	nDisposeH := tp.Range(1, 3)
 	nSubs := tp.Range(1, 8)
 	type subPlan struct {
